@@ -56,8 +56,12 @@ CHECKS["C18"] = dict(text=B + " Symbolic coefficients flow through the real buil
 CHECKS["C19"] = dict(text=A + " Symbolic graphs on 4 sites (edge present / listed reversed); the edge-wise builders with the two-site builder replaced by a recorder; parse_edges_to_site_info. " + B + " End to end: the edge terms (spinless on all graphs <=3 sites, spinful on small graphs) applied to a symbolic state and summed equal the Fock-space lattice Hamiltonian applied to it.", note=NOTE_A + " " + NOTE_B,
                      tech="CrossHair on edge/site bookkeeping + z3-term end-to-end application vs Fock-space lattice Hamiltonian", ref="§4 C19", engine="A+B")
 
+CHECKS["C20"] = dict(text=B + " PARTIAL: decided by the cast trap of the term layer - zero blocks created to fill missing sectors have the type of the data they join (a machine-typed zero array shows up as a cast of a symbolic entry or as machine numbers among the terms; replayed in single precision where the wrong dtype is visible), and the imaginary part is never discarded (value identities with complex terms; real arrays meeting complex factors).", note=NOTE_B + " The dtype-promotion clause (float32/complex64 stay un-promoted through numpy's type resolution, real parts for spectra) is NOT claimed: not applicable to solver-based checking (see not_applicable).",
+                     tech="z3-term symbolic execution with cast trap for machine-typed zero blocks and discarded imaginary parts; single-precision replay", ref="§4 C20, §5", engine="B")
+
 ALL = [f"C{i:02d}" for i in range(1, 21)]
 NA_PARTIAL = {
+    "C20": "dtype-promotion clause only (float32 stays float32, complex64 stays complex64 through every ufunc/concatenate/LAPACK call; real parts for singular values and eigenvalues): it is a statement about numpy's C-level type resolution; symbolic values cannot carry a machine dtype through real numpy and a hand model of the promotion table would verify the model, not the code. The zero-block-type and imaginary-part clauses ARE claimed by the C20 check",
     "C15": "thread-schedule clause only: concurrent out-of-place calls from several threads are not decided here - CrossHair is single-threaded and models no scheduler, the shared state is mutated through C-level container operations whose atomicity comes from the GIL, and a hand-written interleaving model would verify the model, not the code (DESIGN.md section 5); the history/cache/configuration clauses ARE claimed by the C15 check",
 }
 NA_REASON = {
